@@ -665,7 +665,7 @@ fn setup_env() {
 fn worker(ctx: &Ctx) {
     quiet_panics();
     setup_env();
-    let n = ctx.tier.pick(150, 5000);
+    let n = ctx.tier.pick(500, 5000);
     ctx.explore("real", "c16", case_strategy(), n, 300, |c, rep| check_case(ctx, c, rep));
 }
 
